@@ -2066,7 +2066,32 @@ impl Scenario for StatsTruth {
                 st.bytes()
             }
         };
+        // 1 in 12 of the generated word-free / framed-word streams (own generator: all other cases stay what they were):
+        // every packet of one link that does not open the stream carries the FEE ID 0xFFFF (all bits set - the value a
+        // careless "none yet" marker has), and in 2 of 3 a filter makes those packets the first ones analysed
+        let mut fr = Rng::new(seed ^ 0xFEE1_FFFF_0000_0014);
+        let mut forced_filter: Option<Filter> = None;
+        let mut input = input;
+        if !from_corpus && src != 2 && !stave_errors && fr.chance(1, 12) {
+            let w0 = walk(&input);
+            let first_link = w0.pkts.first().map(|p| p.rdh.link_id);
+            let mut others: Vec<u8> = w0.pkts.iter().map(|p| p.rdh.link_id).filter(|l| Some(*l) != first_link).collect();
+            others.sort_unstable();
+            others.dedup();
+            if !others.is_empty() {
+                let l = *fr.pick(&others);
+                input = rebuild_stream(&input, &mut |_, r, _| {
+                    if r.link_id == l {
+                        r.fee_id = 0xFFFF;
+                    }
+                });
+                if fr.chance(2, 3) {
+                    forced_filter = Some(if fr.chance(1, 2) { Filter::Fee(0xFFFF) } else { Filter::Link(l) });
+                }
+            }
+        }
         let f = filter_from_walk(&input, &mut rng);
+        let f = forced_filter.unwrap_or(f);
         let ext = if rng.chance(1, 2) { "json" } else { "toml" };
         let mut parts: Vec<String>;
         let analysed;
@@ -2770,11 +2795,13 @@ impl Scenario for PayloadCut {
                 let mut zr = rng.fork(5);
                 let input = rebuild_stream(&input, &mut |_, r, payload| {
                     if r.data_format == 2 && payload.len() >= 20 && zr.chance(1, 5) {
-                        for b in payload[10..15].iter_mut() {
+                        // (or the mirror image: the five bytes after a first byte that is not zero)
+                        let (zeros, keep) = if zr.chance(1, 2) { (10..15, 15) } else { (11..16, 10) };
+                        for b in payload[zeros].iter_mut() {
                             *b = 0;
                         }
-                        if payload[15] == 0 {
-                            payload[15] = 1 + zr.below(255) as u8;
+                        if payload[keep] == 0 {
+                            payload[keep] = 1 + zr.below(255) as u8;
                         }
                     }
                 });
